@@ -86,6 +86,15 @@ def bounded_descendants(tier, seed):
         lst = [1]; lst.append(lst)
         yield 'cycle-list', lst
         yield 'object', Obj(p=1, q=Obj(r=[1, 2]))
+        yield 'object-underscore', Obj(left={'n': 1}, _spare={'n': 5}, __mangled=[{'n': 6}], right=Obj(_n=7, n=8))
+        class Settings:
+            """a class object as target: its __dict__ is a read-only mapping (mappingproxy), still attribute-keyed"""
+            __slots__ = ()
+            debug = True
+            cfg = {'n': 1}
+        yield 'class-object', Settings
+        yield 'class-object-nested', {'conf': Settings, 'other': [Settings]}
+        yield 'equal-distinct', {'east': {'cfg': {'n': 1, 'keep': 2}}, 'west': {'cfg': {'n': 1, 'keep': 2}}}
         yield 'flaky', Flaky(first={'n': 1}, bad={'n': 2}, last={'n': 3})
         yield 'string', {'s': 'abc', 't': {1, 2}}
         yield 'scalar', 5
@@ -151,7 +160,7 @@ def bounded_descendants(tier, seed):
                 pass
             except Exception as e:
                 failures.append({'key': 'after-star', 'input': '%s / %r' % (name, p), 'observed': repr(e)[:150], 'expected': 'a list or PathAccessError', 'replay_code': None})
-    return {'name': 'wildcards vs breadth-first oracle (shared / cyclic / failing structures)', 'bound': '15 structures x 8 paths', 'cases': cases, 'failures': failures,
+    return {'name': 'wildcards vs breadth-first oracle (shared / cyclic / failing structures)', 'bound': '19 structures x 8 paths', 'cases': cases, 'failures': failures,
             'label': 'bounded'}
 
 
